@@ -179,7 +179,7 @@ Proof.
   pose proof (iv_has _ _ _ Hinv b t o Hb Ht HQ Ho Hoo) as Hhas. apply find_note_has in Hhas. destruct Hhas as [n Hn].
   destruct (find_note_In _ _ _ Hn) as [Hin Hk]. exists n. split; [assumption|]. split; [assumption|]. split; [assumption|].
   destruct (iv_sound _ _ _ Hinv) as [_ S2 _ _ _]. rewrite Forall_forall in S2.
-  destruct (S2 _ Hin) as [[b1 [t1 [o1 [Hb1 [Ht1 [Ho1 [Eo [Ek [Ev Er]]]]]]]]] _].
+  destruct (S2 _ Hin) as [[b1 [t1 [o1 [Hb1 [Ht1 [Ho1 [Eo [Ek [Ev [Er _]]]]]]]]]] _].
   destruct (vu_out _ HU b1 t1 o1 b t o) as [-> ->]; auto; [congruence|].
   repeat split; congruence.
 Qed.
@@ -203,7 +203,7 @@ Proof.
       intros [n [E Hn]]. inversion E; subst k v. clear E. unfold bal_notes in Hn. apply filter_In in Hn. destruct Hn as [Hn Hf].
       apply andb_true_iff in Hf. destruct Hf as [Hf Hcounts]. apply andb_true_iff in Hf. destruct Hf as [Ha Hp].
       apply N.eqb_eq in Ha, Hp. unfold note_counts in Hcounts. apply andb_true_iff in Hcounts. destruct Hcounts as [Hrecv Hnosp].
-      rewrite Forall_forall in S2. destruct (S2 _ Hn) as [[bU [tU [o [HbU [HtU [Ho [Eo [Ek [Ev Er]]]]]]]]] Hsp].
+      rewrite Forall_forall in S2. destruct (S2 _ Hn) as [[bU [tU [o [HbU [HtU [Ho [Eo [Ek [Ev [Er _]]]]]]]]]] Hsp].
       destruct (unexpired_scanned _ Hrecv) as [b [t [Hb [Ht [Hidt HQ]]]]].
       assert (t = tU) by (apply (vu_tx _ HU b t bU tU); auto; congruence). subst tU.
       exists (o, t_id t, b_height b). split; [unfold ekey; cbn [fst]; congruence|].
@@ -453,7 +453,7 @@ Lemma all_scanned_notes_incl birthday c s1 s2 :
 Proof.
   intros Hv I1 I2 A1 A2 n1 Hn1.
   destruct (iv_sound _ _ _ I1) as [_ S2 S3 _ _]. rewrite Forall_forall in S2.
-  destruct (S2 _ Hn1) as [[b [t [o [Hb [Ht [Ho [Eo [Ek [Ev Er]]]]]]]]] Hsp].
+  destruct (S2 _ Hn1) as [[b [t [o [Hb [Ht [Ho [Eo [Ek [Ev [Er _]]]]]]]]]] Hsp].
   assert (Hoo : owned o = true) by (unfold owned; rewrite Eo; reflexivity).
   assert (HQ : forall m, Qof (w_blocks s1) m <-> Qof (w_blocks s2) m).
   { intros m. split; intros Hm.
@@ -573,7 +573,7 @@ Lemma forks_sound_lemma :
   forall U birthday c s, valid_universe U -> reach U birthday c s ->
     (forall n, In n (w_notes s) ->
        (exists b t o, In b U /\ In t (b_txs b) /\ In o (t_outs t) /\ o_owner o = Some (n_acct n)
-                      /\ o_key o = n_key n /\ o_value o = n_value n /\ t_id t = n_recv n)
+                      /\ o_key o = n_key n /\ o_value o = n_value n /\ t_id t = n_recv n /\ o_idx o = n_idx n)
        /\ (forall tid, In tid (n_spent n) ->
              exists b t, In b U /\ In t (b_txs b) /\ t_id t = tid /\ In (n_key n) (t_spends t)))
     /\ NoDup (map n_key (w_notes s))
@@ -639,4 +639,35 @@ Proof.
   split; [apply (same_blocks_same_notes c U Hin HU); assumption|].
   split; [apply (same_blocks_same_notes c U Hin HU); auto; intros m; symmetry; apply HQ|].
   intros a p. apply (same_blocks_same_balance birthday c Hv U Hin HU); auto; apply orphans_dead_live; assumption.
+Qed.
+
+(** * Single chain: soundness and receipt completeness as corollaries *)
+
+Lemma ledger_sound_lemma :
+  forall (birthday : N) (c : list block) (ops : list op) (s : wstate),
+    valid_chain birthday c -> ops_on c ops -> run birthday init ops = Ok s ->
+    (forall n, In n (w_notes s) ->
+       (exists b t o, In b c /\ In t (b_txs b) /\ In o (t_outs t) /\ o_owner o = Some (n_acct n)
+                      /\ o_key o = n_key n /\ o_value o = n_value n /\ t_id t = n_recv n /\ o_idx o = n_idx n)
+       /\ (forall tid, In tid (n_spent n) ->
+             exists b t, In b c /\ In t (b_txs b) /\ t_id t = tid /\ In (n_key n) (t_spends t)))
+    /\ NoDup (map n_key (w_notes s))
+    /\ (forall h x, In (h, x) (w_blocks s) -> exists b, In b c /\ b_height b = h /\ b_hash b = x).
+Proof.
+  intros birthday c ops s Hv Hops Hrun. pose proof (reach_inv _ _ _ _ Hv Hops Hrun) as I.
+  destruct (iv_sound _ _ _ I) as [S1 S2 S3 _ _]. rewrite Forall_forall in S1, S2.
+  split; [exact S2|]. split; [exact S3|]. intros h x Hx. exact (S1 _ Hx).
+Qed.
+
+Lemma receipts_complete_lemma :
+  forall (birthday : N) (c : list block) (ops : list op) (s : wstate),
+    valid_chain birthday c -> ops_on c ops -> run birthday init ops = Ok s ->
+    forall b t o a, In b c -> has_block (w_blocks s) (b_height b) = true ->
+      In t (b_txs b) -> In o (t_outs t) -> o_owner o = Some a ->
+      exists n, In n (w_notes s) /\ n_key n = o_key o /\ n_acct n = a /\ n_value n = o_value o.
+Proof.
+  intros birthday c ops s Hv Hops Hrun b t o a Hb HQ Ht Ho Hown.
+  pose proof (reach_inv _ _ _ _ Hv Hops Hrun) as I.
+  destruct (note_of_output c c (valid_chain_universe birthday c Hv) s I b t o a Hb Ht Ho Hown HQ) as [n [_ [Hn [Ek [Ea [Ev _]]]]]].
+  exists n. auto.
 Qed.
